@@ -1,8 +1,10 @@
 SPECIFICATION Spec
 CONSTANTS
-  Inits <- InitsRefute
-  ChainDepth = 1
-  ChainFull = FALSE
+  Part = "xslice"
+  MaxLen = 1
+  VMag = 1
+  Mixed = FALSE
   Dump = FALSE
+INVARIANT NoUB
 INVARIANT ImplAgrees
 CHECK_DEADLOCK FALSE
